@@ -119,7 +119,7 @@ class XPathTransformer(Transformer[str, list[ASTXpathElement]]):
     def index_spec(self, args: list[str]) -> int:
         if len(args) == 0:
             return -1
-        return int(args[0])
+        return int("".join(args))
 
     def field_spec(self, args: list[str]) -> str:
         return args[0]
